@@ -169,3 +169,61 @@ def check(model, rep, rule, rels=None):
                     {'shortened': short}, line=s.call.lineno,
                     witness='a function whose body is only a docstring')
   rep.unit('generated statement lists made of placeholders only', n_s)
+
+  # ------------------------------------------------------------------ (c)
+  # visit_block hands the *result* of visiting a statement to its after_visit
+  # callback: a node, or a list of nodes when the handler expanded the
+  # statement.  A callback that puts that value into a list as one element
+  # (append / list display) builds a nested list, which is not a statement list.
+  seen = set()
+  n_cb = 0
+  for m in model.modules.values():
+    if not m.rel.startswith(CONV):
+      continue
+    if rels is not None and m.rel not in rels:
+      continue
+    for cls in m.classes.values():
+      for meth in cls.methods.values():
+        for c in ast.walk(meth.node):
+          if not (isinstance(c, ast.Call) and isinstance(c.func, ast.Attribute) and
+                  c.func.attr == 'visit_block'):
+            continue
+          for k in c.keywords:
+            if k.arg != 'after_visit' or not (isinstance(k.value, ast.Attribute) and
+                                              core.norm(k.value.value) == 'self'):
+              continue
+            cb = cls.find(k.value.attr)
+            if cb is None or cb.site in seen:
+              continue
+            seen.add(cb.site)
+            n_cb += 1
+            ps = cb.params()
+            if not ps:
+              continue
+            P = ps[0]
+            nested = []
+            for x in core.walk_no_nested(cb.node):
+              hit = None
+              if isinstance(x, ast.Call) and isinstance(x.func, ast.Attribute) and \
+                  x.func.attr in ('append', 'insert') and x.args and isinstance(
+                      x.args[-1], ast.Name) and x.args[-1].id == P:
+                hit = x
+              elif isinstance(x, ast.List) and any(
+                  isinstance(e, ast.Name) and e.id == P for e in x.elts):
+                hit = x
+              if hit is None:
+                continue
+              conds = formula.path_condition(cb.node, hit)
+              guarded = any(pol != 'C' and ('isinstance(%s,' % P) in core.norm(t)
+                            for pol, t in conds)
+              if not guarded:
+                nested.append(core.norm(hit)[:60])
+            rep.check(not nested, rule, '%s:flat-result' % cb.site,
+                      'the value visit_block passes to its after_visit callback '
+                      'may be a list of statements (the handler expanded the '
+                      'statement); adding it to a list as one element makes a '
+                      'nested list, and the pass fails on it',
+                      {'nested_in': nested}, line=cb.node.lineno,
+                      witness='out.append(xs.pop()) under Feature.LISTS: the append '
+                      'expands to an assignment, the pop adds a statement in front')
+  rep.unit('after_visit callbacks', n_cb)
